@@ -3,9 +3,12 @@
 //! the shuttle flavour of the binary.
 pub(crate) mod alloctrack;
 pub(crate) mod cell;
+pub(crate) mod chan;
 pub(crate) mod core;
 pub(crate) mod crashguard;
+pub(crate) mod scell;
 pub(crate) mod tasks;
+pub(crate) mod units14;
 
 use crate::runner::*;
 
@@ -66,6 +69,9 @@ pub(crate) fn split_panic(text: &str) -> (String, String) {
 fn rule_for(prop: &str) -> &'static str {
     match prop {
         "C05" | "C13" => "c13-task-seq: one task (spawn or spawn_and_forget) with a scripted future (0-7 poll steps: stash/drop/wake wakers, Ready, panic) and 0-30 handle operations (run, drop Runnable, wake by ref/by value, clone/drop waker, cancel, drop token, poll/drop Promise) against an exact model of the phase table (scheduling calls, polls, future/output drops, Promise::poll result, moment of the memory release); non-trivial = >=2 handle operations while a Runnable existed, or a wake-up during a poll. c13-task-conc: the same operations on 1 executor thread + 1-2 handle threads; non-trivial = external wake-ups were issued AND the task ran >=2 times; distinct = hash of the JSON case",
+        "C12" => "c12-chan-poll: send/recv futures of the real channel.rs (1-3 senders, capacity 1-8) polled by the harness in a generated order (start send, poll woken or not, receive, cancel a pending send, drop a sender, drop the receiver, settle) with flag wakers; at every quiescence point (only woken futures are polled, until none is woken) no sender may be left waiting with room in the mailbox and no receiver with a message queued or the channel closed; completed sends are delivered exactly once in per-sender order; non-trivial = a sender and the receiver were both suspended. c12-queue-conc: 1-3 producers x 1-6 messages, one consumer, optional close by a producer / by the consumer, on the real queue.rs; per-producer FIFO, exactly once, nothing accepted is lost, Closed is final, len()==0 at quiescence; non-trivial = >=2 producers and a producer met a full queue. c12-chan-threads: sender and receiver futures polled on different threads, what is left in flight is settled and judged by the same quiescence oracle; non-trivial = a sender and the receiver were both suspended; distinct = hash of the JSON case",
+        "C14" => "c14-rwlock: 2-3 clones of CachedRwLock<Vec<u32>> on threads, generated write (append) / refresh sequences; a refresh that starts after k appends completed sees >= k entries, lists never shrink, per-writer order; non-trivial = >=2 writers and an append completed during a refresh. c14-taskset: owner loop of BroadcastFuture (register unless scheduled, take_scheduled(1) until None) against 1-2 threads waking generated sub-task indices; every wake-up is followed by the processing of that index or by a notification of the parked owner; no index twice per take; non-trivial = the owner was notified after it had parked; distinct = hash of the JSON case",
+        "C15" => "c15-cell: the real SyncCell with a two-word tearable value (k, g(k)): one writer (1-7 writes), 1-2 readers (try_read/read); every value read is untorn and was written, per-reader non-decreasing, a read after an acquire-load of 'k0 written' returns >= k0, a fresh read after the last write returns it; non-trivial = a reader saw >=2 distinct values and a try_read failed because it overlapped a write; distinct = hash of the JSON case",
         _ => "see DESIGN.md",
     }
 }
@@ -76,6 +82,11 @@ fn assumptions_for(prop: &str) -> Vec<&'static str> {
             "the sequential reference model of the task phase table in lowlab/src/harness/tasks.rs",
             "shuttle explores sequentially consistent interleavings only (every atomic is SeqCst); schedules are sampled by a seeded random / PCT scheduler, not enumerated",
             "task memory accounting: allocations of spawn() are served from a quarantine arena (double free, early/late/missing release and writes after release are seen; reads after release are not)",
+        ],
+        "C12" | "C14" | "C15" => vec![
+            "shuttle explores sequentially consistent interleavings only (every atomic is SeqCst; fences are no-ops): missing Acquire/Release orderings are out of reach; schedules are sampled by a seeded random / PCT scheduler, not enumerated",
+            "only the atomics named through crate::loom_exports are scheduling points under shuttle; async-event, diatomic-waker and std::sync::Arc internals run atomically there (real-thread runs interleave them on x86)",
+            "threads that wait do so by yielding a bounded number of times; the verdict is taken at quiescence after every woken future has run, never from the bound",
         ],
         _ => vec![],
     }
@@ -95,6 +106,39 @@ fn run_property(prop: &'static str, tier: &str, seed: u64) -> i32 {
             } else {
                 let n = ctx.n(1_600, 32_000);
                 ctx.run(&tasks::TaskConcSub { iters: 200 }, n, w(16));
+            }
+        }
+        "C12" => {
+            if !shuttle {
+                let n = ctx.n(100_000, 2_000_000);
+                ctx.run(&chan::ChanPollSub, n, w(16));
+                let n = ctx.n(1_500, 30_000);
+                ctx.run(&chan::QConcSub { iters: 10 }, n, w(4));
+                ctx.run(&chan::ChanThrSub { iters: 10 }, n, w(4));
+            } else {
+                let n = ctx.n(1_600, 32_000);
+                ctx.run(&chan::QConcSub { iters: 200 }, n, w(16));
+                ctx.run(&chan::ChanThrSub { iters: 200 }, n, w(16));
+            }
+        }
+        "C15" => {
+            if !shuttle {
+                let n = ctx.n(1_500, 30_000);
+                ctx.run(&scell::CellSub { iters: 10 }, n, w(4));
+            } else {
+                let n = ctx.n(1_600, 32_000);
+                ctx.run(&scell::CellSub { iters: 200 }, n, w(16));
+            }
+        }
+        "C14" => {
+            if !shuttle {
+                let n = ctx.n(1_000, 20_000);
+                ctx.run(&units14::RwSub { iters: 10 }, n, w(4));
+                ctx.run(&units14::TsSub { iters: 10 }, n, w(4));
+            } else {
+                let n = ctx.n(1_600, 32_000);
+                ctx.run(&units14::RwSub { iters: 200 }, n, w(16));
+                ctx.run(&units14::TsSub { iters: 200 }, n, w(16));
             }
         }
         _ => {
@@ -132,6 +176,17 @@ fn replay(path: &str) -> i32 {
         "c13-task-seq" => replay_one(&tasks::TaskSeqSub, p, case, path),
         "c13-task-conc-shuttle" => replay_one(&tasks::TaskConcSub { iters: 2000 }, p, case, path),
         "c13-task-conc-threads" => replay_one(&tasks::TaskConcSub { iters: 200 }, p, case, path),
+        "c12-chan-poll" => replay_one(&chan::ChanPollSub, p, case, path),
+        "c12-queue-conc-shuttle" => replay_one(&chan::QConcSub { iters: 2000 }, p, case, path),
+        "c12-queue-conc-threads" => replay_one(&chan::QConcSub { iters: 200 }, p, case, path),
+        "c12-chan-threads-shuttle" => replay_one(&chan::ChanThrSub { iters: 2000 }, p, case, path),
+        "c12-chan-threads" => replay_one(&chan::ChanThrSub { iters: 200 }, p, case, path),
+        "c15-cell-shuttle" => replay_one(&scell::CellSub { iters: 2000 }, p, case, path),
+        "c15-cell-threads" => replay_one(&scell::CellSub { iters: 200 }, p, case, path),
+        "c14-rwlock-shuttle" => replay_one(&units14::RwSub { iters: 2000 }, p, case, path),
+        "c14-rwlock-threads" => replay_one(&units14::RwSub { iters: 200 }, p, case, path),
+        "c14-taskset-shuttle" => replay_one(&units14::TsSub { iters: 2000 }, p, case, path),
+        "c14-taskset-threads" => replay_one(&units14::TsSub { iters: 200 }, p, case, path),
         _ => {
             eprintln!("no sub-check {} in this engine", sub);
             2
